@@ -134,13 +134,15 @@ def run_property(prop, tier, repo=None, write_evidence=True, quiet=False):
             results.extend(r)
         else:
             results.append(r)
-    if tier == "thorough":
-        for rule_fn in spec.get("thorough", []):
-            r = rule_fn(ctx)
-            if isinstance(r, list):
-                results.extend(r)
-            else:
-                results.append(r)
+    selftest_failures = []
+    if tier == "thorough" and write_evidence:
+        from . import thorough
+        extra = [thorough.lib_bin_agreement(ctx), thorough.selftests(ctx, prop), thorough.seeded(ctx, prop)]
+        if prop == "C11":
+            extra.append(thorough.clippy_cross_check(ctx))
+        for r in extra:
+            selftest_failures += getattr(r, "selftest_failures", [])
+        results.extend(extra)
     known, _fixed = load_known()
     kn = known.get(prop, {})
     new_viol = []
@@ -181,6 +183,10 @@ def run_property(prop, tier, repo=None, write_evidence=True, quiet=False):
         for a, b, c in new_viol:
             print("  violation %s: %s" % (b, c))
         print("VIOLATION property=%s replay=%s" % (prop, rp))
+    if selftest_failures:
+        for m in selftest_failures:
+            print("SELFTEST-FAILED property=%s %s" % (prop, m))
+        rc = 1
     if write_evidence:
         ev = {
             "property_id": prop,
